@@ -184,9 +184,10 @@ impl<'template, 'env> State<'template, 'env> {
                     .collect(),
                 self.loaded_templates.clone(),
             )),
+            // an included template starts an inheritance chain of its own
             BlockState::Replace(blocks) => Some(SavedBlockState::Replaced(
                 std::mem::replace(&mut self.blocks, blocks),
-                self.loaded_templates.clone(),
+                std::mem::take(&mut self.loaded_templates),
             )),
         };
 
